@@ -3,14 +3,14 @@ package main
 // Discharging obligations: race of z3 4.8.12, z3 5.1.0 (z3-new) and cvc5.
 
 import (
-	"strconv"
-	"runtime"
 	"bytes"
 	"context"
 	"fmt"
 	"os"
 	"os/exec"
 	"path/filepath"
+	"runtime"
+	"strconv"
 	"strings"
 	"sync"
 	"time"
